@@ -20,7 +20,7 @@
 (*  HInit/HNext  the world life cycle over two handles (Create / Release / *)
 (*               Batch / Single); a history variable is replayed.          *)
 (***************************************************************************)
-EXTENDS Wb, Json, SequencesExt
+EXTENDS KS, Json, SequencesExt
 
 CONSTANTS MaxLen,      \* longest property list
           MaxHist,     \* longest life-cycle history
@@ -36,35 +36,6 @@ AlphaSet == {Alphabet[i] : i \in 1..Len(Alphabet)}
 (* spherical (1000 km <-> 10 degrees), with/without cross section, with/   *)
 (* without forced surface temperature.                                     *)
 (***************************************************************************)
-H == 1000 * Km                        \* Cartesian model height: z = H - depth
-R == 6371000                          \* default planet radius
-
-U(sph, km) == IF sph THEN Rat(km, 100) ELSE km * Km   \* horizontal unit: km or degrees (100 km per degree)
-XY(sph, x, y) == <<U(sph, x), U(sph, y)>>
-RectU(sph, x0, y0, x1, y1) == <<XY(sph,x0,y0), XY(sph,x1,y0), XY(sph,x1,y1), XY(sph,x0,y1)>>
-
-Features(sph) ==
-  << Area("continental plate", "cont", RectU(sph, 0, 0, 500, 500), 0, 200*Km,
-          <<TUniform(150, "replace")>>, <<CUniform(<<0>>, "replace")>>,
-          <<GUniform(<<0, 1>>, <<Mat(1), Mat(10)>>, <<Dec(3,-1), -1>>)>>, <<VUniform(<<1, 2, 3>>)>>),
-     Area("oceanic plate", "ocean", RectU(sph, 500, 0, 1000, 500), 0, 150*Km,
-          <<TUniform(250, "add")>>, <<CUniformF(<<1, 2>>, <<Dec(25,-2), Dec(75,-2)>>, "replace")>>,
-          <<GUniform(<<1>>, <<Mat(20)>>, <<Dec(5,-1)>>)>>, <<VUniform(<<4, 5, 6>>)>>),
-     Area("mantle layer", "mantle", RectU(sph, 0, 0, 1000, 500), 100*Km, 400*Km,
-          <<TUniform(30, "subtract")>>, <<CUniform(<<0>>, "add")>>, <<>>, <<VUniform(<<7, 8, 9>>)>>),
-     Plume("plume", <<XY(sph,250,250), XY(sph,250,250)>>, <<50*Km, 300*Km>>,
-           <<U(sph,100), U(sph,80)>>, <<0, Dec(5,-1)>>, <<0, 30>>, 10*Km, 350*Km,
-           <<TUniform(1800, "replace")>>, <<CUniform(<<3>>, "replace")>>,
-           <<GUniform(<<0>>, <<Mat(30)>>, <<1>>)>>, <<VUniform(<<0, 0, 9>>)>>),
-     Line("subducting plate", "slab", <<XY(sph,700,-100), XY(sph,700,600)>>, XY(sph,1000,0), 0, 600*Km,
-          <<Segment(300*Km, <<100*Km>>, <<0>>, <<45>>)>>,
-          <<TUniform(600, "replace")>>, <<CUniform(<<2>>, "replace")>>,
-          <<GUniform(<<0, 1>>, <<Mat(40), Mat(50)>>, <<Dec(1,-1), Dec(2,-1)>>)>>, <<VUniform(<<1, 1, 1>>)>>),
-     Line("fault", "fault", <<XY(sph,300,-100), XY(sph,300,600)>>, XY(sph,0,0), 0, 600*Km,
-          <<Segment(200*Km, <<50*Km>>, <<0>>, <<90>>)>>,
-          <<TUniform(700, "replace")>>, <<CUniform(<<4>>, "replace")>>,
-          <<>>, <<VUniform(<<2, 2, 2>>)>>) >>
-
 KS(sph, cross, force) ==
      World(IF sph THEN Spherical("begin segment") ELSE Cartesian, Features(sph))
   @@ Opt(cross, "cross section" :> <<XY(sph,0,250), XY(sph,1000,250)>>)
